@@ -31,7 +31,8 @@ import (
 //   sysstop    system.Stop(ctx)  (every watcher stops too: only "never two" is demanded)
 //
 // Events (each fired once unless stated, every order is enumerated): term (start the path),
-// w1.watch (x2: Watch is called twice by the same watcher), w1.unwatch, w2.unwatch, w1.restart,
+// w1.watch (x2 in thorough: Watch is called twice by the same watcher), w1.unwatch, w2.unwatch,
+// w2.rewatch (thorough: W2 watches again after its UnWatch), w1.restart,
 // tick (+10ms of virtual time; enabled while W1's Restart has not returned - PID.Restart polls every
 // 10ms), rel.poststop and rel.mbox. The last two release the two gates that open a window INSIDE the
 // termination of A (gate mode, no instrumentation):
@@ -185,15 +186,17 @@ const (
 	c10EvTick
 	c10EvRelPS
 	c10EvRelMB
+	c10EvW2Watch
 )
 
-var c10EvNames = [...]string{"term", "w1.watch", "w1.unwatch", "w2.unwatch", "w1.restart", "tick10ms", "rel.poststop", "rel.mbox"}
+var c10EvNames = [...]string{"term", "w1.watch", "w1.unwatch", "w2.unwatch", "w1.restart", "tick10ms", "rel.poststop", "rel.mbox", "w2.rewatch"}
 
 type c10Cfg struct {
 	path      c10Path
 	watches   int  // how many times w1.watch can be fired
 	restart   bool // w1.restart in the alphabet
 	w2unwatch bool
+	w2rewatch bool // W2 may Watch again after its UnWatch was fired (thorough)
 }
 
 func c10Run(t *testing.T, cfg c10Cfg, c *vsched.Chooser) vsched.Outcome {
@@ -254,6 +257,9 @@ func c10Run(t *testing.T, cfg c10Cfg, c *vsched.Chooser) vsched.Outcome {
 		if cfg.restart {
 			left[c10EvW1Restart] = 1
 		}
+		if cfg.w2rewatch {
+			left[c10EvW2Watch] = 1
+		}
 		inWindow := func() bool { return termFired && !termEnded }
 		restartPending := func() bool {
 			r := ws["W1"].restartC
@@ -289,6 +295,9 @@ func c10Run(t *testing.T, cfg c10Cfg, c *vsched.Chooser) vsched.Outcome {
 				if left[e] > 0 {
 					en = append(en, e)
 				}
+			}
+			if cfg.w2rewatch && left[c10EvW2Watch] > 0 && left[c10EvW2UnWatch] == 0 {
+				en = append(en, c10EvW2Watch)
 			}
 			if restartPending() {
 				en = append(en, c10EvTick)
@@ -362,18 +371,22 @@ func c10Run(t *testing.T, cfg c10Cfg, c *vsched.Chooser) vsched.Outcome {
 				if termClient != nil {
 					clients = append(clients, termClient)
 				}
-			case c10EvW1Watch:
+			case c10EvW1Watch, c10EvW2Watch:
 				left[ev]--
-				s := ws["W1"]
+				name, pid := "W1", w1
+				if ev == c10EvW2Watch {
+					name, pid = "W2", w2
+				}
+				s := ws[name]
 				switch {
 				case termFired:
-					open("W1", "Watch fired after the termination started")
-				case restartPending():
-					open("W1", "Watch fired while the watcher restarts")
+					open(name, "Watch fired after the termination started")
+				case name == "W1" && restartPending():
+					open(name, "Watch fired while the watcher restarts")
 				default:
 					s.st, s.reason = "watching", ""
 				}
-				clients = append(clients, c10Go(func() error { w1.Watch(a); return nil }))
+				clients = append(clients, c10Go(func() error { pid.Watch(a); return nil }))
 			case c10EvW1UnWatch, c10EvW2UnWatch:
 				left[ev]--
 				name, pid := "W1", w1
@@ -511,14 +524,14 @@ func TestVerifC10(t *testing.T) {
 	r.Assumption("remote watchers (RemoteTell path of freeWatchers) are not exercised")
 	var scs []vsched.Scenario
 	for pth := c10Path(0); pth < c10NumPaths; pth++ {
-		cfg := c10Cfg{path: pth, watches: vsched.Pick(1, 2), restart: pth != c10PSysStop, w2unwatch: true}
+		cfg := c10Cfg{path: pth, watches: vsched.Pick(1, 2), restart: pth != c10PSysStop, w2unwatch: true, w2rewatch: r.Thorough() && pth != c10PSysStop}
 		if !r.Thorough() && (pth == c10PKill || pth == c10PStopChild) {
 			// same code path as shutdown after the lookup; quick tier keeps them smaller
 			cfg.restart = false
 		}
 		scs = append(scs, vsched.Scenario{
 			Cfg: vsched.Config{Scenario: "c10-" + c10PathNames[pth], Bound: 0, SplitDepth: 3,
-				Params: map[string]any{"path": c10PathNames[pth], "w1.watch": cfg.watches, "w1.restart": cfg.restart}},
+				Params: map[string]any{"path": c10PathNames[pth], "w1.watch": cfg.watches, "w1.restart": cfg.restart, "w2.rewatch": cfg.w2rewatch}},
 			Run: func(c *vsched.Chooser) vsched.Outcome { return c10Run(t, cfg, c) },
 		})
 	}
